@@ -103,6 +103,19 @@ fn gen_body(rng: &mut Rng, rels: &[(String, usize)], nvars: usize) -> (Vec<Strin
         let v = &vars[rng.below(nvars)];
         atoms.push(edge(rng, v, v));
     }
+    if rng.chance(1, 4) && !tern.is_empty() {
+        // wide atom with a repeated variable or a constant: a slow constraint on a trie edge
+        let a = &vars[rng.below(nvars)];
+        let b = &vars[rng.below(nvars)];
+        let k = rng.below(4).to_string();
+        let t = pick(rng, &tern);
+        atoms.push(match rng.below(4) {
+            0 => format!("({t} {a} {b} {b})"),
+            1 => format!("({t} {b} {a} {b})"),
+            2 => format!("({t} {a} {k} {b})"),
+            _ => format!("({t} {a} {b} {k})"),
+        });
+    }
     if rng.chance(1, 3) {
         let a = &vars[rng.below(nvars)];
         let b = &vars[rng.below(nvars)];
@@ -119,6 +132,73 @@ fn gen_body(rng: &mut Rng, rels: &[(String, usize)], nvars: usize) -> (Vec<Strin
     }
     rng.shuffle(&mut atoms);
     (atoms, vars)
+}
+
+/// Variables of `atoms` that are grounded by a relation atom, in first-use order.
+fn grounded_vars(atoms: &[String]) -> Vec<String> {
+    let mut out: Vec<String> = Vec::new();
+    for a in atoms {
+        let is_rel = a.starts_with("(E") || a.starts_with("(T") || a.starts_with("(U");
+        if !is_rel {
+            continue;
+        }
+        for w in a.split(|c: char| !c.is_alphanumeric()) {
+            if w.starts_with('v') && w[1..].chars().all(|c| c.is_ascii_digit()) && w.len() > 1 && !out.iter().any(|x| x == w) {
+                out.push(w.to_string());
+            }
+        }
+    }
+    out
+}
+
+/// A sibling body over the same relations: the same atoms with argument
+/// positions re-bound (repeated variable, constant, fresh variable), so that
+/// two plans of one run reach the same table through different constraints
+/// (trie roots and cached children are shared across the plans of a run).
+fn variant_body(rng: &mut Rng, atoms: &[String], dom: i64) -> Vec<String> {
+    let mut fresh = 100;
+    let mut out: Vec<String> = Vec::new();
+    for a in atoms {
+        let is_rel = a.starts_with("(E") || a.starts_with("(T") || a.starts_with("(U");
+        if !is_rel {
+            if rng.chance(1, 2) {
+                out.push(a.clone());
+            }
+            continue;
+        }
+        let inner = &a[1..a.len() - 1];
+        let mut toks: Vec<String> = inner.split(' ').map(|x| x.to_string()).collect();
+        let n = toks.len() - 1;
+        for k in 0..n {
+            match rng.weighted(&[6, 2, 1, 2]) {
+                0 => {}
+                1 if n >= 2 => {
+                    // repeat another position of this atom
+                    let j = rng.below(n);
+                    if j != k {
+                        toks[1 + k] = toks[1 + j].clone();
+                    }
+                }
+                2 => toks[1 + k] = rng.range(0, dom - 1).to_string(),
+                3 => {
+                    fresh += 1;
+                    toks[1 + k] = format!("v{fresh}");
+                }
+                _ => {}
+            }
+        }
+        out.push(format!("({})", toks.join(" ")));
+    }
+    // drop primitive atoms whose variables lost their grounding
+    let g = grounded_vars(&out);
+    out.retain(|a| {
+        let is_rel = a.starts_with("(E") || a.starts_with("(T") || a.starts_with("(U");
+        is_rel
+            || a.split(|c: char| !c.is_alphanumeric())
+                .filter(|w| w.starts_with('v') && w.len() > 1 && w[1..].chars().all(|c| c.is_ascii_digit()))
+                .all(|w| g.iter().any(|x| x == w))
+    });
+    out
 }
 
 impl Property for C02 {
@@ -164,8 +244,8 @@ impl Property for C02 {
         }
         let nvars = 2 + rng.weighted(&[2, 4, 3, 1]);
         let (atoms, vars) = gen_body(&mut rng, &rels, nvars);
-        ops.push(format!("(relation Out ({}))", vec!["i64"; vars.len()].join(" ")));
         let dom = *rng.pick(&[3i64, 4, 6, 9]);
+        ops.push(format!("(relation Out ({}))", vec!["i64"; vars.len()].join(" ")));
         let facts = |rng: &mut Rng, ops: &mut Vec<String>, scale: usize| {
             for (n, a) in &rels {
                 let rows = match rng.weighted(&[1, 3, 3, 2, 1]) {
@@ -185,15 +265,62 @@ impl Property for C02 {
                         .collect();
                     ops.push(format!("({n} {})", vals.join(" ")));
                 }
+                // hub: one value of one column carries > 16 rows, so that the join
+                // descends into cached trie children instead of refining inline
+                if *a >= 2 && scale == 1 && rng.chance(1, 3) {
+                    let col = rng.below(*a);
+                    let hub = rng.range(0, dom - 1);
+                    let wide = dom * 3;
+                    for _ in 0..17 + rng.below(24) {
+                        let vals: Vec<String> = (0..*a)
+                            .map(|c| {
+                                if c == col {
+                                    hub.to_string()
+                                } else if rng.chance(1, 3) {
+                                    // diagonal rows keep repeated-variable atoms satisfiable
+                                    "D".to_string()
+                                } else {
+                                    rng.range(0, wide).to_string()
+                                }
+                            })
+                            .collect();
+                        let d = rng.range(0, wide).to_string();
+                        let vals: Vec<String> = vals.into_iter().map(|v| if v == "D" { d.clone() } else { v }).collect();
+                        ops.push(format!("({n} {})", vals.join(" ")));
+                    }
+                }
             }
         };
         facts(&mut rng, &mut ops, 1);
         ops.push(format!("(rule ({}) ((Out {})))", atoms.join(" "), vars.join(" ")));
+        // sibling rules in the same run: plans share trie roots and cached children
+        let mut natoms = atoms.len();
+        if rng.chance(1, 2) {
+            for k in 1..=1 + rng.below(2) {
+                let body = if rng.chance(2, 3) {
+                    variant_body(&mut rng, &atoms, dom)
+                } else {
+                    let nv = 2 + rng.weighted(&[2, 4, 3, 1]);
+                    gen_body(&mut rng, &rels, nv).0
+                };
+                let hv = grounded_vars(&body);
+                if hv.is_empty() || body.is_empty() {
+                    continue;
+                }
+                let hv: Vec<String> = hv.into_iter().take(4).collect();
+                let decl = format!("(relation Out{k} ({}))", vec!["i64"; hv.len()].join(" "));
+                // declarations precede the facts so that shrinking keeps them
+                let at = ops.iter().position(|o| o.starts_with("(relation Out ")).unwrap_or(0);
+                ops.insert(at + 1, decl);
+                ops.push(format!("(rule ({}) ((Out{k} {})))", body.join(" "), hv.join(" ")));
+                natoms = natoms.max(body.len());
+            }
+        }
         ops.push("(run 1)".into());
         facts(&mut rng, &mut ops, 3);
         ops.push("(run 1)".into());
         case.ops = ops;
-        case.cfg.insert("atoms".into(), json!(atoms.len()));
+        case.cfg.insert("atoms".into(), json!(natoms));
         if index % 8 == 7 {
             draw_threaded(&mut case, &mut cfg_rng);
             if let Some(serde_json::Value::Object(env)) = case.cfg.get_mut("env") {
@@ -231,7 +358,7 @@ impl Property for C02 {
                     return;
                 }
                 let md = dump::canonical(&m.raw());
-                let mout = md.lines.iter().filter(|l| l.starts_with("Out |")).count();
+                let mout = md.lines.iter().filter(|l| l.starts_with("Out")).count();
                 for (name, e) in engines.iter_mut() {
                     let text = if *name == "rule:no-decomp" && op.starts_with("(rule") {
                         format!("{} :no-decomp)", &op[..op.len() - 1])
